@@ -123,6 +123,21 @@ func genArith(rng *rand.Rand) *arithEval {
 	if rng.Intn(4) == 0 {
 		p = []int{0, 1, 8, 32, 63, 64, 65, 127, 128}[rng.Intn(9)]
 	}
+	if rng.Intn(12) == 0 {
+		// both addresses IPv4-mapped (::ffff:a.b.c.d): 16-byte addresses like any other, although
+		// net.IP.To4 answers for them
+		p = 96 + rng.Intn(33)
+		mapped := new(big.Int).Lsh(big.NewInt(0xffff), 32)
+		lo, hi := uint64(rng.Uint32()), uint64(rng.Uint32())
+		if rng.Intn(3) == 0 {
+			lo = 0
+		}
+		if lo > hi {
+			lo, hi = hi, lo
+		}
+		lo = lo >> uint(128-p) << uint(128-p)
+		return &arithEval{P: p, Base: hex128(new(big.Int).Add(mapped, new(big.Int).SetUint64(lo))), X: hex128(new(big.Int).Add(mapped, new(big.Int).SetUint64(hi))), N: uint64(rng.Intn(1 << 16))}
+	}
 	base := Pattern128(rng)
 	// align base to /p
 	shift := uint(128 - p)
@@ -234,6 +249,9 @@ func arithOne(ctx *fw.Ctx, ev *arithEval) {
 		ctx.Count("arith.offset_overflow", 1)
 	}
 	ctx.Count(fmt.Sprintf("arith.pclass.%s", pclass(p)), 1)
+	if IPOf(base).To4() != nil && IPOf(x).To4() != nil {
+		ctx.Count("arith.both_v4_mapped", 1)
+	}
 	if nontrivial {
 		ctx.Nontrivial("C20", fmt.Sprintf("%d/%s/%s/%d", p, ev.Base, ev.X, ev.N))
 		if ctx.WantSample("C20") {
